@@ -61,6 +61,7 @@ fn dispatch(op: &str, req: &Value) -> Value {
         "checksum" => ops_inventory::checksum(req),
         "checksum-roundtrip" => ops_inventory::checksum_roundtrip(req),
         "inventory" => ops_inventory::inventory(req),
+        "inventory-roundtrip" => ops_inventory::inventory_roundtrip(req),
         "serde-doc" => ops_serde::doc(req),
         "env-apply" => ops_env::apply(req),
         "env-roundtrip" => ops_env::roundtrip(req),
